@@ -127,7 +127,11 @@ Record case := {
   c_phi_s : phi_t; c_phi_d : phi_t;
   c_owners : list (Z * list Z);        (* original atom -> coarse nodes (shared description) containing it *)
   c_frag_heavy : Z;                    (* heavy atoms of all fragments of the shared description together *)
-  c_npairs : Z }.                      (* shared pairs that were written *)
+  c_npairs : Z;                        (* shared pairs that were written *)
+  (* layered inputs (several resolve() calls of ONE resolver, `!` at levels that are not the last): *)
+  c_layered : bool;                    (* the membership clause is judged per level instead *)
+  c_levels : list (obs_graph * Z);     (* graph returned at every level, with the number of `!` pairs written at that level *)
+  c_more_sq : list (graph * option obs_graph) }.   (* the calls of squash_atoms before the last one *)
 
 
 
@@ -153,8 +157,17 @@ Definition stale_hcount_aromatic (o : obs_graph) : bool :=
 (** the hypotheses of the totality / count theorems hold of the recorded input of squash_atoms *)
 Definition hyps_ok (g : graph) : bool := wf_graphb g && bondings_okb g && typed_gb g.
 
+Definition squash_call_ok (g : graph) (r : option obs_graph) : bool :=
+  hyps_ok g &&
+  match squash_atoms g, r with
+  | Ok g', Some o => obs_eqb (observe g') o
+  | Err _, None => true
+  | _, _ => false
+  end.
+
 Definition corr_ok (c : case) : bool :=
   if c_skip c then true else
+  forallb (fun p => squash_call_ok (fst p) (snd p)) (c_more_sq c) &&
   hyps_ok (c_sq0 c) &&
   match squash_atoms (c_sq0 c), c_sq1 c with
   | Ok g, Some o => obs_eqb (observe g) o
@@ -187,9 +200,19 @@ Definition base_fail (c : case) : nat :=
           else if negb (Z.eqb (Z.of_nat (length ms)) (c_frag_heavy c - c_npairs c)) then 4%nat
           else if negb (bonds_same (heavy_bonds ms sh) (heavy_bonds md (c_disjoint c))) then 5%nat
           else if negb (sigs_same (atom_sig ms sh) (atom_sig md (c_disjoint c))) then 6%nat
-          else if negb (member_ok ms (c_owners c) sh) then 7%nat
+          else if negb (c_layered c) && negb (member_ok ms (c_owners c) sh) then 7%nat
           else if negb (Nat.eqb (length (fst sh)) (length (fst (c_disjoint c)))) then 6%nat
           else 0%nat
       end
   end.
-Definition prop_fail (c : case) : nat := if c_skip c then 0%nat else classify c (base_fail c).
+(** per level: the nodes that belong to more than one coarser node are exactly the merged pairs of that level *)
+Definition multi_member (o : obs_graph) : Z :=
+  Z.of_nat (length (filter (fun p => match fragid_list (snd p) with Some (_ :: _ :: _) => true | _ => false end) (fst o))).
+Definition levels_ok (c : case) : bool := forallb (fun p => Z.eqb (multi_member (fst p)) (snd p)) (c_levels c).
+
+Definition prop_fail (c : case) : nat :=
+  if c_skip c then 0%nat
+  else match c_shared c with
+       | Some _ => if levels_ok c then classify c (base_fail c) else 8%nat
+       | None => classify c (base_fail c)
+       end.
